@@ -407,7 +407,7 @@ fn shape_inputs(maxlen: usize) -> (Vec<String>, Vec<String>) {
 
 fn shape_sweep(ctx: &Ctx, rep: &mut Report, sys: &Sys) {
     use rayon::prelude::*;
-    let maxlen = ctx.tier.pick(1100usize, 4200usize);
+    let maxlen = ctx.tier.pick(4200usize, 9000usize);
     let (all, sub) = shape_inputs(maxlen);
     let bad: Vec<(String, String)> = all
         .par_iter()
